@@ -402,3 +402,72 @@ func e2eDelivered(e upstream.Entry) e2e.Delivered {
 	d.Stamp = e2e.StampOf(d.Fields["log"])
 	return d
 }
+
+// rstProbeChild: "abrupt disconnects ... still delivers the well-formed records that surround the bad input". A complete,
+// well-formed record that the agent has already read is held back in the connection's reader until the next record start or
+// the next flush tick; when the client then resets the connection, the record must still be handed over. The flush interval
+// is made long (2 s) so that the reset, 150 ms after the record, certainly comes before any tick; data the agent had NOT read
+// when the reset arrived is legitimately gone with the socket, so the probe is repeated (at most three connections) and only
+// "lost every time" is a violation.
+func rstProbeChild(c *vkit.Ctx) {
+	sc := e2e.Scenario{ID: "rst", Outputs: 1, Mode: "Forward", MemWindow: 8, QueueCap: 2000, ChunkBytes: 3000, BatchLogs: 7, MaxPending: 10}
+	t := e2e.DefaultTimeouts
+	t.InputFlush = 2 * time.Second
+	e2e.SetDefs(sc, t)
+	root := filepath.Join(c.WorkDir(), "rstprobe")
+	_ = os.MkdirAll(root, 0o755)
+	up, err := upstream.New("out1", &upstream.Clock{}, nil)
+	if err != nil {
+		c.Inconclusive("no upstream: " + err.Error())
+		return
+	}
+	defer up.Close()
+	cfgPath := filepath.Join(root, "config.yml")
+	_ = os.WriteFile(cfgPath, []byte(e2e.ConfigYAML(sc, root, []string{up.Addr()})), 0o644)
+	a, err := e2e.StartAgent(cfgPath, false)
+	if err != nil {
+		c.Inconclusive("agent did not start: " + err.Error())
+		return
+	}
+	c.LogCase("rst-probe")
+	deliveredOnce := false
+	attempts := 0
+	for k := 1; k <= 3 && !deliveredOnce; k++ {
+		attempts++
+		rec := e2e.Rec{Conn: 7700 + k, Seq: 1, App: "appA", Sev: 6, Host: "h1", Kind: "plain", Pad: 10}
+		conn, err := net.DialTimeout("tcp", a.Addr, 5*time.Second)
+		if err != nil {
+			c.Inconclusive("rst probe: dial: " + err.Error())
+			break
+		}
+		tc := conn.(*net.TCPConn)
+		_, _ = tc.Write([]byte(rec.Line() + "\n"))
+		time.Sleep(150 * time.Millisecond) // far below the 2 s flush interval, far above what the agent needs to read 100 bytes
+		_ = tc.SetLinger(0)
+		_ = tc.Close()
+		for dl := time.Now().Add(1500 * time.Millisecond); time.Now().Before(dl) && !deliveredOnce; {
+			for _, m := range up.Snapshot() {
+				for _, e := range m.Entries {
+					if d := e2eDelivered(e); d.Stamp == rec.Stamp() {
+						deliveredOnce = true
+					}
+				}
+			}
+			time.Sleep(5 * time.Millisecond)
+		}
+	}
+	c.Eval(1)
+	c.Event("rst_probe_connections", attempts)
+	if deliveredOnce {
+		c.Event("rst_probe_delivered", 1)
+		c.Nontrivial("rst-probe")
+	} else if attempts == 3 {
+		c.Violation("record-lost-at-reset", "a complete well-formed record, read by the agent 150 ms before the client reset the connection (flush interval 2 s), was not delivered - on three connections in a row", nil)
+	}
+	done := make(chan struct{})
+	go func() { a.Stop(); close(done) }()
+	select {
+	case <-done:
+	case <-time.After(60 * time.Second):
+	}
+}
